@@ -341,6 +341,12 @@ def expand_vars(body, t, keep=()):
             y = body.def_term(x[2])
             if y is not None and y != x:
                 return expand_vars(body, y, keep)
+        if x[0] == 'f' and isinstance(x[1], tuple) and x[1][0] == 'agg':
+            # a field of a value that was just built (`let span = a..b; .. span.start`)
+            if isinstance(x[1][3], dict) and x[2] in x[1][3]:
+                return x[1][3][x[2]]
+            if isinstance(x[1][3], list) and x[1][1] == 'tuple' and str(x[2]).isdigit() and int(x[2]) < len(x[1][3]):
+                return x[1][3][int(x[2])]
         return None
     return rewrite(t, fn)
 
